@@ -12,6 +12,7 @@ from ..facts import AnalysisBroken, short
 from ..paths import path, pstr, last_field, root_var_id, fields_in
 from ..locks import mutex_name
 from .qcommon import TUInfo
+from .. import formula as F
 
 EXPLANATION = 'C15: typestate of the remover (reset before overwrite), destructor/reset walk, recording of the returned handle under the mutex, move/swap field completeness.'
 ASSUMPTIONS = ['histories follow from the per-method invariant "recorded items include everything attached through this remover"']
@@ -332,3 +333,20 @@ def check_remove(ctx, tu, info, f):
         er = [n for n in g.calls() if (g.callee(n) or {}).get('name') == 'erase']
         ok2 = len(er) == 1 and bool(si.node_held_must(er[0]))
         ctx.ob('C15.P3', g, 'the record is erased under the record mutex', ok2)
+        # the record searched for is the one whose handle denotes the same listener as the given handle
+        for lam in tu.lambdas_of.get(g.id, []):
+            try:
+                fm = F.formula(lam, inline=False)
+                ats = F.atoms(fm)
+                eqs = [a for a in ats if '==' in a and 'handle.lock()' in a and 'handlePointer' in a]
+                # true only if the item's handle locks to the same node
+                okm = len(eqs) == 1 and F.equivalent(('or', ('not', fm), ('atom', eqs[0])), ('const', True))[0]
+            except F.Unsupported:
+                okm = False
+            ctx.ob('C15.P3', lam, 'a record matches only when its handle refers to the same listener as the handle to remove', okm,
+                   detail='extracted %s' % (F.show(fm) if 'fm' in dir() else '?'), key_detail='record match')
+        # success is reported exactly when a record was erased
+        rets = g.return_nodes()
+        tr = [r for r in rets if g.nodes[g.strip_all_casts(g.kids(r)[0])].get('value') is True]
+        okr = len(tr) == 1 and len(er) == 1 and g.pos_dominates(g.pos(er[0]), g.pos(tr[0]))
+        ctx.ob('C15.P3', g, 'true is returned exactly after a record was erased', okr, key_detail='erase result')
